@@ -291,6 +291,14 @@ ALLENES = [
     'CC(F)=[C@]=CCl', 'CC(F)=[C@@]=CCl', 'ClC=[C@]=C(F)C', 'CC(F)=[C@]=C([H])Cl', 'CC(F)=[C@]=C(Cl)[H]', 'CC([H])=[C@]=C([H])Cl',
     'CCC(C)=[C@]=C(C)CO', 'CC(F)=[C@]=C1CCC(C)CC1', 'C1CCCCC1C(C)=[C@]=C(F)Cl', 'CC(F)=C=C=[C@]=C=C(Cl)Br', 'OC(C)=[C@]=C(N)C(=O)O',
 ]
+# coordinate / special bonds (order 8, '~') from a metal to ONE of several ligand atoms that are equivalent in the covalent skeleton:
+# only the '~' bond tells the twins apart, so it has to take part in the refinement (int_adjacency) like every other bond
+COORD = [
+    'CN(C)CCN(C)(C)~[Cu]', 'Cl[Pd](Cl)~P(C)(C)CCP(C)C', 'CP(C)CCP(C)(C)~[Pd](Cl)Cl', 'CC(=O~[Na+])CC(C)=O', '[Na+]~O=C(C)CC(C)=O',
+    'NCCN~[Ni]', 'OCCO~[Li+]', 'CSCCSC~[Ag+]', 'c1ccnc(c1)-c1ccccn1~[Ru]', 'C1COCCOCCOCCO1~[K+]', 'NCCNCCN~[Co]', 'N(~[Zn])(C)(C)CCCN(C)C',
+    '[O-]C(=O)CC(=O)[O-]~[Ca+2]', 'C1CCC(N)C(N~[Pt](Cl)Cl)C1', 'CC(C)(C)P(~[Au]Cl)C(C)(C)C', 'C(~[Fe])1=CC=CC1', 'CN(C)CCN(C)(C)~[Cu]~N(C)(C)CCCN(C)C',
+    'O=C(C)C(~[Rh])C(C)=O', 'N#CC(~[Ag+])C#N', 'C[C@H](N)C(=O)O~[Cu]', 'N[C@@H](C)C(O~[Zn])=O',
+]
 # members of the two documented gap classes (the oracle must recognise them; whatever the code does there is not judged)
 GAP_EXAMPLES = ['C[C@H]1CC[C@@H](C)CC1', 'C[C@H]1CC[C@H](C)CC1', 'O[C@H]1CC[C@@H](N)CC1', 'C[C@H]1C[C@@H](C)C1',
                 'C12C3C1C1C2C31', 'C12C3C4C1C5C2C3C45', 'CC12C3C1C1C2C31']
@@ -649,6 +657,8 @@ def search(ck, seeds=None):
         S.one(smi, rng)
     for smi in LONG:
         S.one(smi, rng, n_renum=4, n_spell=3, n_rdkit=4)
+    for smi in COORD:
+        S.one(smi, rng, n_renum=6, n_spell=6, n_rdkit=2)
     for smi in ALLENES:
         S.one(smi, rng, n_renum=4, n_spell=12, n_rdkit=1)
     search_allenes(ck)
@@ -1197,7 +1207,7 @@ def correspondence(ck):
     ucases, umeta = [], []
     suspects = []
     n_writer = 0
-    pool = SPECIAL + GAP_EXAMPLES + LONG + ALLENES[:4] + corpus.sample(corpus.lipo(), 100 if quick else 500, ck.seed, 'c01-corr')
+    pool = SPECIAL + GAP_EXAMPLES + LONG + ALLENES[:4] + COORD + corpus.sample(corpus.lipo(), 100 if quick else 500, ck.seed, 'c01-corr')
     mols = []
     for smi in pool:
         try:
@@ -1364,7 +1374,7 @@ def directed(ck, bad, suspects):
     for smi in seeds:
         if smi not in seen:
             seen.append(smi)
-    for smi in seen[:40] + SPECIAL:
+    for smi in seen[:40] + SPECIAL + COORD:
         S.one(smi, rng, n_renum=12, n_spell=6, n_rdkit=4)
     for smi in corpus.sample(corpus.lipo(), 200, ck.seed, 'c01-directed'):
         S.one(smi, rng, n_renum=4, n_spell=2, n_rdkit=2)
